@@ -2,6 +2,7 @@ import Tahoe.Codec.Lemmas
 import Tahoe.Codec.Instances
 import Tahoe.Codec.LemmasCall
 import Tahoe.Codec.LemmasRS
+import Tahoe.Codec.LemmasRSBlocks
 /-! C36 — erasure coding recovers from any k blocks (property theorems).
 
 ## Coverage of the statement
@@ -17,7 +18,7 @@ for a segment (including a padded tail segment) decode back to that segment."
 | the caller hands the codec a consistent (id, block) pairing and the right decoder (k, N, padded size) for every arrival order / superset | `decode_paths_factor_through_selection`, `immutable_hands_paired_blocks`, `mutable_hands_paired_prefix`, `immutable_decoder_matches_encoder`, `mutable_decoder_matches_encoder`; tied to the real calls by recording the arguments of `CRSDecoder.decode` (harness `call=` field) |
 | including a padded tail segment (own padded size / codec parameters, trim to the real size) | the tail branches of the two path theorems; `tail_padding_sizes`, `full_segment_sizes` |
 | decode back to *that segment* (exact bytes, padding removed) | conclusions `… = .ok data` / `= seg` of the three main theorems |
-| the erasure code itself recovers (zfec, outside /repo) | **assumption** `MDS` / `RS256_MDS`. Proved: `mds_instances` (replication all n, identity all k, XOR parity 2-of-3). For zfec's own GF(2^8) matrices: `rs256_generator_small` — every square submatrix of the generator for N ≤ 5 is inverted by the decoding matrix (kernel-evaluated), the 256 evaluation points are distinct, every non-zero byte has its inverse; the step from that coefficient identity to blocks of bytes (bilinearity of `gfMul` over XOR) and N > 5 are **not proved**: correspondence (byte-exact with zfec, incl. its matrices) + monitor sampling |
+| the erasure code itself recovers (zfec, outside /repo) | **proved for every 1 ≤ k ≤ N ≤ 5 on blocks of bytes of any length, any order: `rs256_mds_small_blocks`** (hence `rs256_any_k_blocks_decode_small` needs no assumption); field laws of the model's GF(2^8) proved for all bytes (`gf256_field_laws`). For N > 5 still the **assumption** `RS256_MDS`, now reduced by `rs256_mds_of_scalar_identity` to a pure byte-level Lagrange identity (`RS256_ScalarIdentity`: no blocks, no lists of blocks; what is missing is the Vandermonde/Lagrange uniqueness argument over the proved field). Toy codes: `mds_instances`. Coefficient level: `rs256_generator_small`. Otherwise byte-exact correspondence with zfec (incl. its matrices) + monitor sampling |
 | Deferred / thread-pool delivery of the result; AES of the mutable path | not covered (outside the model; exercised by the harness) |
 -/
 namespace Tahoe.C36
@@ -429,6 +430,65 @@ theorem rs256_generator_small :
 example : idsOfMask 5 0b11010 = [1, 3, 4] ∧
     matMul (decMatrix 3 [1, 3, 4]) (selectRows (encMatrix 3 5) [1, 3, 4]) 3 = identityMatrix 3 := by
   decide +kernel
+
+/-- **The model's GF(2^8) (carry-less multiplication modulo zfec's polynomial 0x11d, the arithmetic
+behind `rs256`) is a field**, for all bytes: XOR is the addition; `gfMul` is bilinear over it,
+commutative, associative, has unit 1, and every non-zero byte has the inverse `gfInv`. Proved
+structurally (induction on the rounds of the multiplication, then span induction over the eight
+basis bytes) — the kernel only evaluates 64 + 512 + 8 basis products and 255 inverses. -/
+theorem gf256_field_laws :
+    (∀ a b c : UInt8, gfMul (a ^^^ b) c = gfMul a c ^^^ gfMul b c) ∧
+    (∀ a b c : UInt8, gfMul a (b ^^^ c) = gfMul a b ^^^ gfMul a c) ∧
+    (∀ a b : UInt8, gfMul a b = gfMul b a) ∧
+    (∀ a b c : UInt8, gfMul (gfMul a b) c = gfMul a (gfMul b c)) ∧
+    (∀ a : UInt8, gfMul 1 a = a ∧ gfMul a 1 = a ∧ gfMul 0 a = 0 ∧ gfMul a 0 = 0) ∧
+    (∀ a : UInt8, a ≠ 0 → gfMul a (gfInv a) = 1) ∧
+    (∀ a b : UInt8, gfMul a b = 0 → a = 0 ∨ b = 0) :=
+  ⟨gfMul_xor_left, gfMul_xor_right, gfMul_comm, gfMul_assoc,
+   fun a => ⟨gfMul_one_left a, gfMul_one_right a, gfMul_zero_left a, gfMul_zero_right a⟩,
+   gfMul_inv, fun _ _ h => gfMul_eq_zero h⟩
+
+example : gfMul 0x53 0xca = 0x8f ∧ gfMul 0x8f (gfInv 0xca) = 0x53 := by decide +kernel
+
+/-- **zfec's code is MDS on blocks of bytes of any length for every 1 ≤ k ≤ N ≤ 5** — the full `MDS`
+law for the transcription `rs256`: from the `k` input blocks it produces `N` blocks of the same
+length, and any `k` of them, in any order, decode back to the input. No assumption. (The
+coefficient identity of `rs256_generator_small` is lifted to blocks by the bilinearity of `gfMul`,
+and to arbitrary orders of the share numbers by commutativity/associativity.) -/
+theorem rs256_mds_small_blocks (k n : Nat) (hk : 1 ≤ k) (hkn : k ≤ n) (hn : n ≤ 5) : MDS (rs256 k n) k n :=
+  rs256_mds_small k n hk hkn hn
+
+/-- C36 for zfec's code with N ≤ 5, **without** the `RS256_MDS` assumption -/
+theorem rs256_any_k_blocks_decode_small (k n : Nat) (hk : 1 ≤ k) (hkn : k ≤ n) (hn : n ≤ 5)
+    (seg : Block) (supplied : List (Nat × Block)) (hlen : k ≤ supplied.length)
+    (hnd : (supplied.map (·.1)).Nodup)
+    (hgen : ∀ p ∈ supplied, (encodeSegment (rs256 k n) k seg)[p.1]? = some p.2) :
+    decodeSegment (rs256 k n) k seg.length supplied = seg :=
+  any_k_blocks_decode (rs256 k n) k n hk (rs256_mds_small k n hk hkn hn) seg supplied hlen hnd hgen
+
+set_option maxRecDepth 100000 in
+/-- an instance that meets every hypothesis: 3-of-5, a 3-byte segment, four blocks supplied out of order -/
+example : decodeSegment (rs256 3 5) 3 3 [(4, [0x09]), (0, [0x61]), (3, [0x75]), (1, [0x62])] = [0x61, 0x62, 0x63] :=
+  rs256_any_k_blocks_decode_small 3 5 (by decide) (by decide) (by decide) [0x61, 0x62, 0x63] _
+    (by decide) (by decide) (by decide)
+
+/-- What remains assumed for N > 5, stated over the proved field: the byte-level Lagrange identity —
+for distinct share numbers `ids` (|ids| = k) below `n ≤ 256`, interpolating through the points
+`pt ids_s` the values the systematic encoding rows give to input bytes `v`, and evaluating at the
+primary point `pt m`, returns `v[m]`. It mentions only single bytes; it follows from "a polynomial of
+degree < k over a field is determined by its values at k distinct points" (the 256 points are
+distinct: `rs256_generator_small`), which is not formalised here. -/
+def RS256_ScalarIdentity : Prop :=
+  ∀ k n : Nat, 1 ≤ k → k ≤ n → n ≤ 256 → ∀ ids : List Nat, ids.length = k → ids.Nodup →
+    (∀ i ∈ ids, i < n) → ScalarRecover k n ids
+
+/-- the block-level assumption `RS256_MDS` follows from the byte-level identity, for every k ≤ N ≤ 256 -/
+theorem rs256_mds_of_scalar_identity (h : RS256_ScalarIdentity) : RS256_MDS :=
+  fun k n hk hkn hn => rs256_mds_of_scalar k n hk hkn hn (h k n hk hkn hn)
+
+/-- and the byte-level identity is a theorem for N ≤ 5 (so the hypothesis is not vacuous there) -/
+example (k n : Nat) (hk : 1 ≤ k) (hn : n ≤ 5) (ids : List Nat) (hl : ids.length = k) (hnd : ids.Nodup)
+    (hb : ∀ i ∈ ids, i < n) : ScalarRecover k n ids := scalarRecover_small k n hk hn ids hl hnd hb
 
 /-- the assumption is satisfiable by *some* code for the shapes proved: the instances -/
 theorem mds_instances :
